@@ -1267,7 +1267,10 @@ func (sc *serverConn) handleFrame(strm *Stream, fr *FrameHeader) error {
 
 		win := int64(fr.Body().(*WindowUpdate).Increment())
 		if win == 0 {
-			return NewGoAwayError(ProtocolError, "window increment of 0")
+			// On a stream this is a stream error; only on the connection
+			// window, which the read loop checks, does it end the connection
+			// (RFC 7540 6.9).
+			return NewResetStreamError(ProtocolError, "window increment of 0")
 		}
 
 		if atomic.AddInt64(&strm.window, win) > 1<<31-1 {
